@@ -827,7 +827,23 @@ func Harness_C27_ChGarbage() {
 // (uvarint over uint64, varint over int64, int over all ints, strings 0..2, optional bytes nil/0..2,
 // slice headers nil / 0..2^40).
 func Harness_C27_ChPrimitives() {
-	kind := zzsym.Choice("primitive", 12)
+	kind := zzsym.Choice("primitive", 13)
+	if kind == 12 {
+		// length-prefixed readers with a FULL-WIDTH declared length (any uint64, up to ten varint bytes)
+		// in front of 0..2 content bytes: never a panic, accepted exactly when the declared length fits
+		length := zzsym.U64("declared")
+		k := zzsym.Choice("content", 3)
+		data := append(appendUvarint(nil, length), zzsym.Bytes("content.bytes", k)...)
+		v, next, err := readBytes(data, 0, "bytes")
+		zzsym.Reach("ch-prim-bytes-wide-length")
+		zzsym.Assert((err == nil) == (length <= uint64(k)), "byte string with a declared length beyond the input accepted (or one that fits refused)")
+		zzsym.Assert(err != nil || (uint64(len(v)) == length && next == len(data)-k+int(length)), "byte string is not the declared segment")
+		sv, _, serr := readString(data, 0)
+		zzsym.Assert((serr == nil) == (length <= uint64(k)) && (serr != nil || uint64(len(sv)) == length), "string with a declared length beyond the input accepted (or one that fits refused)")
+		ov, _, oerr := readOptionalBytes(append([]byte{1}, data...), 0, "optional")
+		zzsym.Assert((oerr == nil) == (length <= uint64(k)) && (oerr != nil || uint64(len(ov)) == length), "optional bytes with a declared length beyond the input accepted (or one that fits refused)")
+		return
+	}
 	if kind >= 6 {
 		switch kind {
 		case 6:
